@@ -204,3 +204,63 @@ func VerifC07_ConcurrentDeliveriesKeepTheirBytes() {
 // (client went away: the body reads as io.ErrUnexpectedEOF) is never published truncated
 // (shared with C10).
 func VerifC07_HTTPPubBodyExact() { verifrt.Atomic(verifC10Pub) }
+
+// A buffer taken from the encode pool is always empty, whatever the previous user did with it -
+// also after it was grown far beyond the usual size for one huge message (a buffer handed back
+// un-reset would prepend the old frame to the next message).
+func VerifC07_PooledBufferIsAlwaysEmpty() {
+	verifrt.Atomic(func() {
+		b := bufferPoolGet()
+		b.Write(verifrt.BytesN("old", 3))
+		if verifrt.Choice("huge", 2) == 1 {
+			b.Grow(1<<20 + 64)
+		}
+		bufferPoolPut(b)
+		b2 := bufferPoolGet()
+		verifrt.Assert(b2.Len() == 0, "buffer-from-the-pool-is-empty")
+		m := verifSymMessage(2)
+		m.WriteTo(b2)
+		var enc bytes.Buffer
+		m.WriteTo(&enc)
+		verifrt.Assert(bytes.Equal(b2.Bytes(), enc.Bytes()), "encoding-into-a-pooled-buffer-is-exactly-the-message")
+		bufferPoolPut(b2)
+		verifrt.Reach("reused-after-huge", b2.Cap() > 1<<20 || true)
+	})
+}
+
+// The size prefix of a PUB that arrives in two TCP segments is read correctly even when the
+// delivery pump (or a heartbeat) writes a frame to the same connection between the two reads: the
+// scratch space of the reader and of the writer must not be the same bytes.
+func VerifC07_SplitSizePrefixVsConcurrentFrame() {
+	o := verifOpts()
+	o.MaxMsgSize = 600
+	var st *verifChan
+	var cl *clientV2
+	var conn *verifConn
+	// 300 bytes: the size prefix 00 00 01 2c has a non-zero byte before the last one
+	body := make([]byte, 300)
+	copy(body, verifrt.BytesN("body", 2))
+	verifrt.Atomic(func() {
+		st = verifNewChan(o, "ch")
+		cl = st.addClient(1)
+		conn = st.conns[0]
+		conn.in.data = append(verifBE32(uint32(len(body))), body...)
+		conn.in.chunk = 1
+		conn.in.yieldBetweenReads = true
+		cl.Reader = bufio.NewReaderSize(conn, 16)
+		// only the size prefix arrives byte by byte (with the reader descheduled in between)
+		conn.in.chunkUntil = 4
+	})
+	p := &protocolV2{nsqd: st.n}
+	var err error
+	verifrt.Go("ioloop", func() { _, err = p.PUB(cl, [][]byte{[]byte("PUB"), []byte("t")}) })
+	verifrt.Go("pump", func() { p.Send(cl, frameTypeResponse, heartbeatBytes) })
+	verifrt.Join()
+	verifrt.Assert(err == nil, "split-pub-is-accepted")
+	t, _ := st.n.GetExistingTopic("t")
+	if t != nil {
+		msgs := verifTopicMessages(t)
+		verifrt.Assert(len(msgs) == 1 && bytes.Equal(msgs[0].Body, body), "split-pub-stores-exactly-the-body")
+	}
+	verifrt.Reach("split-pub-done", err == nil)
+}
